@@ -48,7 +48,8 @@ def floors(tier):
           'ev:density_integrates_to_one': 40 * (1 if tier == 'quick' else 6),
           'ev:postprocess_inverse': 250 * k,
           'ev:log_det_jacobian_large_x': 250 * k,
-          'ev:ppo_stochastic': 20 * k, 'ev:ppo_deterministic': 20 * k}
+          'ev:ppo_stochastic': 20 * (1 if tier == 'quick' else 10),
+          'ev:ppo_deterministic': 20 * (1 if tier == 'quick' else 10)}
 
 
 def log_jac(x):
